@@ -121,3 +121,87 @@ PLANS["C20"] = {
     "rule": "MC: all 256 code points (+ three above 255) x 4 tables x {G0,G1} x {SI, SO, SO;SI} drawn one at a time, every designator "
             "final incl. unsupported ones; TV: 8-bit and UTF-8 parser walks (shifts/designators delivered in 8-bit mode only)",
 }
+
+LIGHT = {"api": 3}
+PLANS["C17"] = {
+    "props": ["C17"], "ops": [],
+    "mc": [mc("C04", geoms("GTiny", "GQuick"), ports({"api": 1}, {"api": 1, "chars": 3})),
+           mc("C06", geoms("GRowsQuick", "GRows"), ports({"api": 2}, {"api": 1})),
+           mc("C07", geoms("GRowsQuick", "GRows"), ports({"api": 2}, {"api": 1})),
+           mc("C13", geoms("GCols", "GCols"), ports({"api": 1}, {"api": 1})),
+           mc("C12", geoms("GSmall", "GSmall"), ports({"api": 1, "chars": 1}, ALLP)),
+           mc("C16", geoms("GRowsQuick", "GRows"), ports({"api": 2}, {"api": 1}))],
+    "gen": [walk("C17", 200, 5000), walk("C17", 100, 2500, port="chars"), walk("C04", 60, 1500), walk("C17", 8, 200, geom="large", steps=60)],
+    "rule": "the history variable need (rows whose appearance changed since the embedder last cleared the set) is carried by TLC over "
+            "every recorded trace; need <= dirty <= rows is asserted after every event; the driver clears the set at random moments; "
+            "vectors of the C04/C06/C07/C12/C13/C16 models start from a cleared set",
+}
+PLANS["C09"] = {
+    "props": ["C09"], "ops": [],
+    "mc": [mc("C05", geoms("GTiny", "GQuick"), ports({"api": 2, "chars": 5}, {"api": 1, "chars": 2})),
+           mc("C16", geoms("GRowsQuick", "GRows"), ports({"api": 1}, {"api": 1})),
+           mc("C14", geoms("GSmall", "GSmall"), ports({"api": 1}, ALLP)),
+           mc("C12", geoms("GSmall", "GSmall"), ports({"api": 1, "chars": 1}, ALLP)),
+           mc("C08", geoms("GTiny", "GTiny"), ports({"api": 1, "chars": 1}, ALLP))],
+    "gen": [walk("", 200, 5000), walk("C16", 100, 2500), walk("", 100, 2500, port="chars"), gen("soup", 100, 3000),
+            walk("", 12, 300, geom="large", steps=60), walk("C18", 60, 1500)],
+    "rule": "WellFormed (cursor, margins, dirty indices, grid shape, colour values, display() row count) is asserted by TLC after "
+            "construction and after every event of every trace: API walks with arguments absent or 0..9999, parser walks, byte soup, "
+            "resizes in both directions, DECCOLM; vectors of the C05/C08/C12/C14/C16 models",
+}
+PLANS["C01"] = {
+    "props": ["C01"], "ops": [],
+    "mc": [mc("C05", geoms("GTiny", "GQuick"), ports({"api": 3, "chars": 3}, {"api": 1, "chars": 1})),
+           mc("C04", geoms("GTiny", "GQuick"), ports({"api": 3, "chars": 7}, {"api": 1, "chars": 2}), disp=True),
+           mc("C06", geoms("GRowsQuick", "GRows"), ports({"api": 5, "chars": 7}, {"api": 1, "chars": 2}), disp=True),
+           mc("C07", geoms("GRowsQuick", "GRows"), ports({"api": 3, "chars": 5}, {"api": 1, "chars": 2})),
+           mc("C13", geoms("GCols", "GCols"), ports({"api": 1, "chars": 2}, ALLP), disp=True),
+           mc("C12", geoms("GSmall", "GSmall"), ports({"api": 1, "chars": 1}, ALLP)),
+           mc("C16", geoms("GRowsQuick", "GRows"), ports({"api": 2}, {"api": 1}), disp=True, display_after=True),
+           mc("C08", geoms("GTiny", "GTiny"), ports({"api": 1, "chars": 1}, ALLP)),
+           mc("C20", geoms("GTiny", "GTiny"), ports({"api": 3}, {"api": 1}))],
+    "gen": [gen("soup", 400, 20000), walk("", 200, 6000), walk("", 100, 3000, port="chars"), walk("", 100, 3000, port="bytes", utf8=0),
+            gen("recsoup", 200, 6000), gen("recsoup", 200, 6000, port="bytes"), walk("", 12, 400, geom="large", steps=60),
+            gen("soup", 12, 400, geom="large"), gen("captured", 7, 140, maxbytes=1500)],
+    "level": "exploration",
+    "level_text": "Spec-generated vectors (every transition of the bounded models, with display() interposed) and seeded random inputs - byte "
+                  "soup with every C0/C1 control, truncated/garbled sequences, invalid and split UTF-8 in both parser modes, API calls "
+                  "with arguments absent or uniform in 0..9999, resizes, captured sessions cut at random offsets - are executed on the "
+                  "real code under catch_unwind in a child process with a watchdog; TLC validates each trace: no event is a panic, and "
+                  "after the universal reset word the probe character is delivered (not wedged). 'The process did not die' is necessarily "
+                  "observed outside TLC, hence exploration.",
+    "rule": "every call runs under catch_unwind (a panic is a trace event no specification action explains); the harness process runs "
+            "under a watchdog, its death or timeout is attributed to the last begun history; each soup run ends with CAN BEL BEL + probe",
+}
+PLANS["C03"] = {
+    "props": ["C03"], "ops": ["feed"],
+    "gen": [gen("recsoup", 600, 20000, chars=60), gen("recsoup", 200, 6000, chars=200), walk("", 100, 3000, port="chars"),
+            walk("", 60, 2000, port="chars", utf8=0)],
+    "rule": "random strings over one representative of every character class of the grammar (every C0 control, ESC, C1 CSI/OSC/ST, digits, "
+            "; ? $ SP > # % ( ) [ ] \\, supported and unsupported finals, printable ASCII, non-ASCII), digit runs up to 40 digits, OSC "
+            "strings with all terminators, random chunking, both parser modes; the listener events of every feed() call are compared by "
+            "TLC with the specification's recogniser (state carried by TLC)",
+}
+PLANS["C19"] = {
+    "props": ["C19"], "ops": ["feed", "title", "icon"],
+    "gen": [gen("recsoup", 400, 12000, chars=60), gen("recsoup", 200, 6000, chars=60, port="bytes"), walk("C19", 120, 3000, port="chars"),
+            walk("C19", 60, 1500, port="bytes"), walk("C19", 60, 1500)],
+    "rule": "OSC strings with codes 0-3, 9, a; payloads over letters ; \\ ] space non-ASCII C0; terminators BEL, U+009C, ESC \; both "
+            "introducers; random chunking; title/icon events equal the payload after the first ';'; on a screen, title/icon operations "
+            "leave grid and cursor unchanged",
+}
+PLANS["C11"] = {
+    "props": ["C11"], "ops": ["feed"],
+    "gen": [gen("recsoup", 400, 12000, port="bytes", chars=60), gen("soup", 200, 6000), gen("captured", 7, 70, maxbytes=1200)],
+    "rule": "byte strings with well-formed 1-4 byte forms, overlongs, surrogates, > U+10FFFF, stray continuation bytes, truncated sequences, "
+            "BOM, random chunking and mode switches between chunks; the text delivered to the listener per feed() call is compared by TLC "
+            "with the specification's streaming decoder (pending tail carried by TLC)",
+}
+PLANS["C02"] = {
+    "props": ["C02"], "ops": ["feed"],
+    "gen": [gen("chunked", 40, 1200, tokens=25), gen("chunked", 20, 600, tokens=25, utf8=0), gen("chunked", 20, 600, tokens=12, geom="tiny"),
+            gen("captured", 7, 70, maxbytes=1500)],
+    "rule": "each generated session (and each captured session prefix) is fed whole, one unit at a time, with one random cut, with random "
+            "k-way cuts and with empty chunks inserted, through Parser (character cuts) and ByteParser (byte cuts, UTF-8 and 8-bit); TLC "
+            "asserts that the final observable states of all runs of the same stream are equal",
+}
